@@ -148,14 +148,14 @@ def tlc_cmd(workers, cfg, module, metadir, extra=()):
             "-config", cfg] + list(extra) + [module]
 
 
-def judge(trace_path, timeout=1800, heap="6g"):
+def judge(trace_path, timeout=1800, heap="6g", cfg="TraceLib.cfg", module="TraceLib.tla"):
     """validates a trace against the Level-0 specification; returns dict"""
     metadir = trace_path + ".tlc"
     shutil.rmtree(metadir, ignore_errors=True)
     env = dict(os.environ)
     env["TRACE"] = trace_path
     env["JAVA_TOOL_OPTIONS"] = TLC_JAVA_OPTS + " -Xmx" + heap
-    cmd = tlc_cmd(1, "TraceLib.cfg", "TraceLib.tla", metadir)
+    cmd = tlc_cmd(1, cfg, module, metadir)
     t0 = time.time()
     try:
         p = subprocess.run(cmd, cwd=SPEC, env=env, stdout=subprocess.PIPE, stderr=subprocess.STDOUT, text=True, timeout=timeout)
@@ -166,9 +166,9 @@ def judge(trace_path, timeout=1800, heap="6g"):
     out = p.stdout
     with open(trace_path + ".tlc.log", "w") as f:
         f.write(out)
-    res = {"mismatches": [], "toolerr": [], "summary": None, "wall": time.time() - t0, "states": 0, "transitions": 0}
+    res = {"mismatches": [], "toolerr": [], "summary": None, "wall": time.time() - t0, "states": 0, "transitions": 0, "fidelity": []}
     for line in out.splitlines():
-        m = re.match(r'^<<"(MISMATCH|TOOLERR|SUMMARY)", "(.*)">>$', line)
+        m = re.match(r'^<<"(MISMATCH|TOOLERR|SUMMARY|FIDELITY)", "(.*)">>$', line)
         if m:
             js = json.loads('"' + m.group(2) + '"')
             val = json.loads(js)
@@ -176,6 +176,8 @@ def judge(trace_path, timeout=1800, heap="6g"):
                 res["mismatches"].append(val)
             elif m.group(1) == "TOOLERR":
                 res["toolerr"].append(val)
+            elif m.group(1) == "FIDELITY":
+                res["fidelity"].append(val)
             else:
                 res["summary"] = val
         m = re.match(r"^(\d+) states generated, (\d+) distinct states found", line)
@@ -277,3 +279,20 @@ def tlc_generated(spec, tier, stats):
     """returns a generator function producing the behaviours enumerated by a TLC Gen_* configuration"""
     from . import tlcgen
     return lambda rnd, tier2: tlcgen.generate(spec, tier2, rnd, stats)
+
+
+def apalache(module, obligations, timeout=900):
+    """discharges inductive-invariant obligations with Apalache (unbounded integers); returns list of dicts"""
+    adir = os.path.join(SPEC, "apalache")
+    out = []
+    for name, args in obligations:
+        cmd = ["apalache-mc", "check"] + args + ["--out-dir=" + os.path.join(WORK, "apalache-out"), module]
+        t0 = time.time()
+        try:
+            p = subprocess.run(cmd, cwd=adir, stdout=subprocess.PIPE, stderr=subprocess.STDOUT, text=True, timeout=timeout)
+            ok = "The outcome is: NoError" in p.stdout and p.returncode == 0
+        except subprocess.TimeoutExpired:
+            ok = False
+        out.append({"obligation": name, "args": " ".join(args), "discharged": ok, "wall_s": round(time.time() - t0, 1)})
+    shutil.rmtree(os.path.join(WORK, "apalache-out"), ignore_errors=True)
+    return out
